@@ -23,6 +23,7 @@ uint32_t w_st_calls, w_bc_calls;
 int32_t w_bc_len_sum;
 int g_stateless;
 uint32_t w_dec_calls;
+uint32_t g_zhdr_dict_flag, g_zhdr_dict_id, w_chk_gz_calls, w_chk_zl_calls;
 #include "splice_defaults.h"
 /* Stores into the user buffer / tmp_out_buffer are redirected to recording stubs that write nothing:
  * buffer contents are not modelled here, and a store at a symbolic offset into the 87 KB struct
